@@ -163,6 +163,73 @@ def run(tier, rep):
             ok += 1
     for tr, tree, st, text in meta[:3]:
         rep.sample({"tokens": tr["toks"], "tree": shape(tr["tree"]), "text": text})
+    # ---- type expressions: TypeGrammar.tla's trees, rendered, parsed and lowered by the real front end
+    tg = run_tlc("TypeGrammar", "TypeGrammar.cfg", workers=8, xmx="8g", timeout=1800)
+    if not tlc_ok(tg, "TypeGrammar"):
+        rep.violation(f"model:TypeGrammar:{tg.violated}", {"trace": tg.trace[-1:]})
+    types = tg.json_prints("TYPE")
+    if len(types) != tg.distinct or len(types) < 10000:
+        raise ToolError("TypeGrammar: unexpected number of type trees")
+    rnd_t = rng(11)
+    rnd_t.shuffle(types)
+    types = types if tier == "thorough" else types[:3000]
+
+    def norm_ty(x):
+        k = x["k"]
+        if k == "con":
+            return ("con", x["n"])
+        if k == "tuple":
+            return ("tuple", tuple(norm_ty(y) for y in x["ts"]))
+        if k == "app":
+            return ("app", tuple(norm_ty(y) for y in x["as"])) if "f" not in x or x["f"] == {"k": "con", "n": "Vec"} else ("app?", str(x["f"]))
+        if k == "array":
+            return ("array", norm_ty(x["e"])) if x.get("len", 3) == 3 else ("array?", x.get("len"))
+        if k == "fn":
+            return ("fn", tuple(norm_ty(y) for y in x["ps"]), norm_ty(x["r"]))
+        return (k,)
+
+    def type_shape(x):
+        """what the type tree exercises (identity of a failure)"""
+        fs = set()
+
+        def w(y, pos):
+            if y["k"] == "fn":
+                fs.add("arrow-in-" + pos)
+                if y["r"]["k"] == "fn":
+                    fs.add("curried")
+                for p_ in y["ps"]:
+                    w(p_, "param")
+                w(y["r"], "result")
+            elif y["k"] == "tuple":
+                fs.add("tuple%d-in-%s" % (len(y["ts"]), pos))
+                for p_ in y["ts"]:
+                    w(p_, "tuple")
+            elif y["k"] == "app":
+                for p_ in y["as"]:
+                    w(p_, "arg")
+            elif y["k"] == "array":
+                w(y["e"], "array")
+        w(x, "top")
+        return "+".join(sorted(fs)) or "atom"
+    treq = []
+    for i, ty in enumerate(types):
+        sp = " ".join(ty["toks"])
+        treq.append({"id": i, "mode": "ast", "text": f"fn f[T](a: {sp}) -> {sp} {{ () }}\n"})
+    tans = gv_parallel("parse", treq, shards=NCPU)
+    ty_ok = 0
+    for ty, q, a in zip(types, treq, tans):
+        want = norm_ty(ty["tree"])
+        if a["verdict"] != "ok":
+            rep.violation(f"type-{a['verdict']}:{type_shape(ty['tree'])}", {"text": q["text"], "diags": a.get("diags"), "msg": a.get("msg")}, replay={"text": q["text"]})
+            continue
+        sg = a["sigs"]["f"]
+        got_p, got_r = norm_ty(sg["params"][0]), norm_ty(sg["ret"])
+        if got_p != want or got_r != want:
+            rep.violation(f"type-tree:{type_shape(ty['tree'])}", {"text": q["text"], "expected": ty["tree"], "got_param": sg["params"][0], "got_result": sg["ret"]}, replay={"text": q["text"]})
+        else:
+            ty_ok += 1
+    rep.coverage["type_expressions_in_model"] = tg.distinct
+    rep.coverage["type_expressions_parsed"] = ty_ok
     # ---- literals
     r = run_tlc("Lexis", "Lexis.cfg", workers=4, xmx="4g", timeout=900)
     if not tlc_ok(r, "Lexis"):
